@@ -379,7 +379,8 @@ def run(ctx: core.Ctx):
     for _, r in res:
         h = r["history"]
         b = open_begin(h)
-        if b is None or r.get("broken") or nodes.get(tuple(h[:b]), {}).get("broken", True):
+        base = nodes.get(tuple(h[:b])) if b is not None else None
+        if base is None or r.get("broken") or base.get("broken"):
             continue
         want = nodes[tuple(h[:b])]["obs"]
         cls = f"exit={r['mode']},last={h[-1]}"
